@@ -9,6 +9,7 @@
 package pbt
 
 import (
+	"bytes"
 	"encoding/json"
 	"fmt"
 	"io"
@@ -16,6 +17,7 @@ import (
 	"os"
 	"path/filepath"
 	"runtime/debug"
+	"strconv"
 	"strings"
 	"sync"
 	"testing"
@@ -115,8 +117,20 @@ func runAfterCase() {
 
 type lastFail struct {
 	mu   sync.Mutex
-	plan []byte
+	plan []byte // the last failing plan (as marshalled after the run)
+	pre  []byte // the same plan as marshalled before the run (what a later attempt is compared with)
 	err  string
+	n    int // executions since the first failure (shrinking)
+}
+
+// shrinkBudget bounds the number of executions rapid may spend on shrinking one failure. Checks that open
+// sockets cannot give their memory back (the uTP library keeps ~16 MB per socket), and a failing case that
+// fails fast would otherwise be re-executed thousands of times within rapid's shrink time.
+func shrinkBudget() int {
+	if v, err := strconv.Atoi(os.Getenv("VERIF_SHRINK_EXEC")); err == nil && v > 0 {
+		return v
+	}
+	return 2000
 }
 
 // SaveReplay writes a replay file and returns its path.
@@ -203,8 +217,25 @@ func Run[P any](t *testing.T, id, check string, gen func(*rapid.T) P, run func(P
 			rec.Unhealthy(check + ": rapid failed without a property failure")
 		}
 	}()
+	budget := shrinkBudget()
 	rapid.Check(t, func(rt *rapid.T) {
 		p := gen(rt)
+		pre, _ := json.Marshal(p)
+		lf.mu.Lock()
+		if lf.plan != nil {
+			lf.n++
+			if lf.n > budget {
+				// shrink budget used up: the plan rapid settled on fails as recorded, every other attempt
+				// counts as "does not fail", so the shrinker stops making progress and ends
+				same, msg := bytes.Equal(pre, lf.pre), lf.err
+				lf.mu.Unlock()
+				if same {
+					rt.Fatalf("%s/%s: %v", id, check, msg)
+				}
+				return
+			}
+		}
+		lf.mu.Unlock()
 		c := &stats.Case{}
 		err := SafeCall(func() error { return run(p, c) })
 		runAfterCase()
@@ -212,7 +243,7 @@ func Run[P any](t *testing.T, id, check string, gen func(*rapid.T) P, run func(P
 		rec.Commit(c, stats.DigestBytes(pb), func() any { return clip(pb) })
 		if err != nil {
 			lf.mu.Lock()
-			lf.plan, lf.err = pb, err.Error()
+			lf.plan, lf.pre, lf.err = pb, pre, err.Error()
 			lf.mu.Unlock()
 			rt.Fatalf("%s/%s: %v", id, check, err)
 		}
